@@ -32,7 +32,8 @@ struct Entry {
     bool has_ptr;          // C10: a text pointer is owned by the queue (malloc build)
     bool may_text;         // a text may come back
     bool must_text;        // a text must come back
-    std::string text;      // expected text (exactly) when one comes back
+    bool contains;         // parser-generated text (-113): only "contains the header as written" is asserted, not its exact extent
+    std::string text;      // expected text (exactly, or the header it must contain) when one comes back
 };
 
 enum Mode { M_C10, M_C20, M_C18 };
@@ -101,11 +102,12 @@ struct QRun {
     }
     QRun(World &w_, Verdict &v_, Mode m) : w(w_), v(v_), mode(m), cap(w_.cfg.queue) {}
 
-    void model_push(int code, bool has_text, const std::string &text, bool alloc_failed) {
+    void model_push(int code, bool has_text, const std::string &text, bool alloc_failed, bool contains = false) {
         Entry e;
         e.code = code;
         e.has_ptr = false;
         e.may_text = e.must_text = false;
+        e.contains = contains;
         bool was_empty = q.empty();
 #if SIM_HAS_INFO
         if (has_text) {
@@ -114,7 +116,8 @@ struct QRun {
             if (!text.empty()) {
                 e.may_text = true;
                 e.text = text;
-                if (was_empty && text.size() + 1 <= (size_t) w.cfg.heap) e.must_text = true;
+                // (for parser-generated texts only the header is known, not the exact stored extent: never mandatory)
+                if (was_empty && !contains && text.size() + 1 <= (size_t) w.cfg.heap) e.must_text = true;
             }
 #else
             if (!alloc_failed) {
@@ -133,7 +136,7 @@ struct QRun {
         } else {
             Entry o;
             o.code = -350;
-            o.has_ptr = o.may_text = o.must_text = false;
+            o.has_ptr = o.may_text = o.must_text = o.contains = false;
             q.back() = o;
             expect_echo = true;
             COUNT("fault_queue_overflow");
@@ -144,7 +147,7 @@ struct QRun {
     Entry model_pop() {
         Entry e;
         e.code = 0;
-        e.has_ptr = e.may_text = e.must_text = false;
+        e.has_ptr = e.may_text = e.must_text = e.contains = false;
         if (!q.empty()) {
             e = q.front();
             q.pop_front();
@@ -174,7 +177,7 @@ struct QRun {
             return;
         }
         if (has_text && !text.empty()) {
-            if (!m.may_text || text != m.text)
+            if (!m.may_text || (m.contains ? text.find(m.text) == std::string::npos : text != m.text))
                 v.fail("text-foreign", fmt("via=%s maytext=%d", via, m.may_text),
                        fmt("%s returned text \"%s\" for code %d, pushed text was %s\"%s\"", via, c_escape(text).c_str(), code, m.may_text ? "" : "(none) ",
                            c_escape(m.text).c_str()));
@@ -206,6 +209,16 @@ struct QRun {
         if (m.may_text) fulls.push_back(desc + ";" + m.text);
         bool ok = false, cut = false;
         std::string full_used;
+        if (m.contains && m.may_text) {
+            // parser-generated text: <desc>;<something containing the header as written> (texts are short, never cut)
+            std::string pre = desc + ";";
+            if (content.compare(0, pre.size(), pre) == 0 && content.find(m.text, pre.size()) != std::string::npos && content.size() <= 255) {
+                int count_after2 = SCPI_ErrorCount(w.ctx);
+                int want2 = count_before > 0 ? count_before - 1 : 0;
+                if (count_after2 != want2) v.fail("resp-not-consumed", fmt("before=%d after=%d", count_before, count_after2), "queue count did not drop over SYST:ERR?");
+                return;
+            }
+        }
         for (auto &f : fulls) {
             if (content == f) {
                 ok = true;
@@ -284,18 +297,24 @@ void execute_queue(const Plan &plan, Verdict &v, Mode mode) {
             // parser-originated push: only -113 carries text (the unit as written)
             bool has_text = false;
             std::string text;
+            bool contains = false;
             if (code == -113) {
                 UnitRec *u = ww.unit();
                 if (u) {
-                    text = u->text;
-                    while (!text.empty() && (text.back() == '\r' || text.back() == '\n')) text.pop_back();
+                    // the header as written: the unit text without leading blanks, up to the first blank / separator / terminator
+                    size_t a = 0;
+                    while (a < u->text.size() && (u->text[a] == ' ' || u->text[a] == '\t')) a++;
+                    size_t b = a;
+                    while (b < u->text.size() && !strchr(" \t;\r\n", u->text[b])) b++;
+                    text = u->text.substr(a, b - a);
                     has_text = true;
+                    contains = true;
                 }
             }
             bool failed = g_alloc.last_failed;
             g_alloc.last_failed = false;
             if (has_text && failed) COUNT("fault_alloc_failed_parser_push");
-            run.model_push(code, has_text, text, failed);
+            run.model_push(code, has_text, text, failed, contains);
         };
         w.observer = [&](World &ww, const char *where) {
             if (v.violated) return;
